@@ -17,7 +17,7 @@ static int g_op = -1;
 
 std::string primary_property(const std::string &profile) {
     if (profile == "ssv") return "C01";
-    if (profile == "strf") return "C02";
+    if (profile == "strf" || profile == "tiny") return "C02";
     if (profile == "sing") return "C06";
     if (profile == "svx") return "C07";
     if (profile == "hist") return "C08";
